@@ -500,6 +500,11 @@ def offenders(res, base):
     # ---- never a deadlock, pdsh ends
     if status == "deadlock":
         out.append(("deadlock", "no runnable thread while dsh() has neither returned nor exited (N=%d f=%s)" % (n, m["fanout"])))
+    elif status == "self-deadlock":
+        who = [ev for _, ev in res["inline"] if len(ev) >= 3 and ev[1] == "self-lock"]
+        out.append(("deadlock", "thread %s locks %s_mutex, which it already holds (a non-recursive mutex: it hangs for good) "
+                    "(N=%d f=%s)" % (who[-1][0] if who else "?", {"tc": "threadcount", "thd": "thd"}.get(who[-1][2], who[-1][2])
+                                     if who else "?", n, m["fanout"])))
     elif status in ("budget", "spin"):
         out.append(("no-termination", "step budget exceeded / a thread spins"))
     elif status not in ("ok", "exit"):
